@@ -39,6 +39,9 @@ fn config(v: &Value) -> ChiritoriConfiguration {
 fn run(v: &Value) -> Value {
     let mode = s(v, "mode", "clean");
     let src = Rc::new(s(v, "source", ""));
+    // the caller keeps a handle on the source across the call (every other request): the entry points take an
+    // Rc<String> and must not assume they own the only reference
+    let _keep = if v.get("share").and_then(|x| x.as_bool()).unwrap_or(false) { Some(Rc::clone(&src)) } else { None };
     let ds = s(v, "ds", "<!-- <");
     let de = s(v, "de", "> -->");
     match mode.as_str() {
